@@ -1,6 +1,6 @@
 (** Proofs for C20: static output / static input / provider time through adapter chains /
     WeightedSum with its memo (refinement to the memo-free function). *)
-From Coq Require Import List ZArith QArith Qabs Qminmax Bool Lia.
+From Coq Require Import List ZArith QArith Qabs Qminmax Bool Lia Permutation.
 From FV Require Import Base Static.
 Import ListNotations.
 Open Scope Z_scope.
@@ -598,4 +598,71 @@ Proof.
     specialize (IH w' (rev (map (fun j => (j, t)) (seq 0 (length (ws_fetched w)))) ++ log) Hv' Hf').
     destruct (ws_run (logging_pull src) units w' _ r) as [xs s'']. simpl in *.
     rewrite IH. rewrite app_length, rev_length, !map_length, seq_length, Hlen. lia.
+Qed.
+
+(* ------------------------------------------------------------------------- *)
+(** * WeightedSum: connect phase, gridded data with missing cells *)
+
+(** in the connect phase the answer comes from the connector's start-time data and is not memoised *)
+Lemma ws_connect_phase_no_memo {St : Type} (pull : St -> nat -> Z -> St * res Q) (units : list Q)
+      (w : wstate) (s : St) (t : Z) (ind : list Q) :
+  ws_valid w = false -> ws_last w = None -> all_some (ws_fetched w) = Some ind ->
+  ws_get pull units w s t = (mkW (ws_fetched w) false None (wsum units ind), s, Ok (wsum units ind)).
+Proof.
+  intros Hv Hl Hf. unfold ws_get. rewrite Hf, Hl, Hv. reflexivity.
+Qed.
+
+Definition opt_Qeq (a b : option Q) : Prop :=
+  match a, b with
+  | Some x, Some y => (x == y)%Q
+  | None, None => True
+  | _, _ => False
+  end.
+
+Lemma opt_Qeq_refl a : opt_Qeq a a.
+Proof. destruct a; simpl; [reflexivity|exact I]. Qed.
+
+Lemma opt_Qeq_trans a b c : opt_Qeq a b -> opt_Qeq b c -> opt_Qeq a c.
+Proof.
+  destruct a, b, c; simpl; intros H1 H2; try contradiction; try exact I.
+  rewrite H1. exact H2.
+Qed.
+
+(** a cell of the sum is missing iff it is missing in one of the terms *)
+Lemma cell_sum_none_iff (l : list (option Q)) : cell_sum l = None <-> In None l.
+Proof.
+  induction l as [|[x|] r IH]; simpl.
+  - split; [discriminate|tauto].
+  - destruct (cell_sum r) as [y|].
+    + split; [discriminate|]. intros [H|H]; [discriminate|]. apply IH in H. discriminate.
+    + split; [intros _; right; apply IH; reflexivity|reflexivity].
+  - split; [intros _; left; reflexivity|reflexivity].
+Qed.
+
+(** ... and otherwise the sum of the terms *)
+Fixpoint qsum_opt (l : list (option Q)) : Q :=
+  match l with
+  | [] => 0
+  | Some x :: r => x + qsum_opt r
+  | None :: r => qsum_opt r
+  end%Q.
+
+Lemma cell_sum_some (l : list (option Q)) (q : Q) : cell_sum l = Some q -> (q == qsum_opt l)%Q.
+Proof.
+  revert q. induction l as [|[x|] r IH]; simpl; intros q H.
+  - inversion H. reflexivity.
+  - destruct (cell_sum r) as [y|]; [|discriminate]. inversion H. rewrite (IH y eq_refl). reflexivity.
+  - discriminate.
+Qed.
+
+(** the order of the terms (= the order in which the inputs are named) is irrelevant *)
+Lemma cell_sum_perm (l l' : list (option Q)) : Permutation l l' -> opt_Qeq (cell_sum l) (cell_sum l').
+Proof.
+  induction 1 as [|x l l' _ IH|x y l|l l' l'' _ IH1 _ IH2].
+  - simpl. reflexivity.
+  - simpl. destruct x as [x|]; [|exact I].
+    destruct (cell_sum l), (cell_sum l'); simpl in *; try contradiction; try exact I. rewrite IH. reflexivity.
+  - simpl. destruct x as [x|], y as [y|]; simpl; try exact I.
+    destruct (cell_sum l); simpl; [ring|exact I].
+  - eapply opt_Qeq_trans; eassumption.
 Qed.
